@@ -23,6 +23,14 @@ ONE configuration object that is constructed and then RE-PARAMETRIZED (cfg cases
 DOSINI) must answer every call like a fresh load (Det.Reparam), and a DOSINI INSTANCE directory (both flavours of the
 stage files) must load the same under every directory listing order (inst cases) - see c15_reuse.py.
 
+Round 9: a process also loads DIFFERENT packages one after the other (multi cases: a package directory with extra
+top-level folders, mostly named like components of another package of the session whose components are referenced in
+the relative form; process v starts with package v mod n), the mutable module / class level containers of the four
+anchored modules must be unchanged after all the loads of a child process (the model of a process keeps no state), and
+FlowIR packages list environment names that are equal ignoring case (one spelling not all-lowercase; default and a
+second platform) - compared between the key-permuted documents of the 6 processes, in-process between three listing
+orders, and with the rule of the loop of FlowIR.from_dict (open finding F15d: two non-lowercase spellings).
+
 "Every process" is represented by: 6 processes (hash seeds 0,1,2,3,random,4; six key orders of every
 document; six creation orders of every file set) on the implementation side, and by "every permutation
 oracle at the modelled sites" on the Coq side."""
@@ -58,6 +66,14 @@ ASSUMPTIONS = [
     'real regular expressions, OutputReference.from_str and the table of scopes; the caches replicating_components / '
     'aggregating_components are not modelled (the real code runs with them, in its own call order)',
     'YAML documents have no repeated keys (wfk); variable values are str/int/bool',
+    'state a load leaves behind in the process: observed through sessions of loads of the same package, sessions of '
+    '2-3 DIFFERENT packages (top-level folders of one mostly named like components of another) and a before / after '
+    'comparison of the list / dict / set valued module globals and class attributes of conf.py, flowir.py, dsl.py, '
+    'graph.py in every child process; state kept elsewhere (instance attributes of long-lived objects, other modules, '
+    'closures) is only visible if a later load of the session reads it',
+    'environment names equal ignoring case: generated with exactly ONE spelling that is not all-lowercase next to the '
+    'lowercase one (two non-lowercase spellings = open finding F15d, corpus witness only); not modelled in Coq '
+    '(generator / predicate extension)',
     'a process is modelled without state (Det.Model.session = map of single loads); state kept by the implementation '
     'between two loads is visible only to the session runs: 3-6 loads per process sharing files, 6 processes with '
     'different load orders; state keyed by something that never repeats inside a run (e.g. absolute scratch paths of '
@@ -187,6 +203,23 @@ def gen_flowir_pkg(rng):
     if rng.random() < 0.5:
         # variables that refer to each other (two hops): the expansion must not depend on the order of the keys
         envs['chain'] = {'VKA': '$VKB/a', 'VKB': '${VKC}/b', 'VKC': 'lit', 'VKD': '$VKA:$VKC', 'VKE': '$VKD'}
+    plat, plat_envs = None, None
+    if envs and rng.random() < 0.45:
+        # environment names are case-insensitive (stored in lowercase): a platform may list two spellings of one name,
+        # ONE of them not all-lowercase, with different contents; which one is served must not depend on the order
+        # in which the (equal) documents list them
+        base = rng.choice(sorted(envs))
+        alt = respell(rng, base)
+        envs[alt] = {'DEFAULTS': 'PATH', 'WHO': alt, 'FOO': '%(x)s-' + alt, 'ONLY_' + alt.upper(): 'yes'}
+        envs = shuffled_keys(rng, envs)
+    if rng.random() < 0.3:
+        # the same on a second platform (the names of EVERY platform are normalised, the active one or not)
+        plat = rng.choice([None, 'plat'])
+        base = rng.choice(sorted(envs)).lower() if envs and rng.random() < 0.7 else 'platenv'
+        plat_envs = {base: {'WHERE': 'plat-lower', 'BAR': 'plat-bar'}}
+        if rng.random() < 0.8:
+            plat_envs[respell(rng, base)] = {'WHERE': 'plat-other-spelling', 'FOO': 'plat-%(y)s'}
+        plat_envs = shuffled_keys(rng, plat_envs)
     prev = []
     for s in range(nstages):
         for j in range(rng.randint(1, 3)):
@@ -222,6 +255,10 @@ def gen_flowir_pkg(rng):
               'environments': {'default': envs} if envs else {}}
     if not envs:
         del flowir['environments']
+    if plat_envs is not None:
+        flowir['platforms'] = ['default', 'plat']
+        flowir.setdefault('environments', {})['plat'] = plat_envs
+        flowir['variables']['plat'] = {'global': {'y': 'plat-y'}}
     k = rng.choice([0, 1, 2, 3])
     names = ['%s.yaml' % w for w in rng.sample(WORDS, k)]
     vfiles = {n: {'global': {v: 'f%d-%s' % (fi, v) for v in rng.sample(NAMES[:3], rng.randint(1, 3))}}
@@ -229,7 +266,126 @@ def gen_flowir_pkg(rng):
     given = list(names)
     rng.shuffle(given)
     return {'kind': 'pkg', 'format': 'flowir', 'doc': flowir, 'files': files, 'inputs': inputs, 'vfiles': vfiles,
-            'given': given, 'platform': None}
+            'given': given, 'platform': plat}
+
+
+def respell(rng, name):
+    """another spelling of an environment name: equal ignoring case, not all-lowercase"""
+    low = name.lower()
+    alts = [a for a in (low.capitalize(), low.upper(), low[:-1] + low[-1:].upper(), low[:2] + low[2:].capitalize())
+            if a != low and a != name]
+    return rng.choice(alts)
+
+
+def shuffled_keys(rng, d):
+    ks = list(d)
+    rng.shuffle(ks)
+    return {k_: d[k_] for k_ in ks}
+
+
+CLASS_ENV = 'a_platform_lists_two_non_lowercase_spellings_of_one_environment_name'
+
+
+def env_collisions(case):
+    """[(platform, lowercase name, spellings listed)] for the environment names of a FlowIR document that are equal
+    ignoring case"""
+    out = []
+    doc = case.get('doc') if case.get('format') == 'flowir' else None
+    for plat_, envs_ in sorted(((doc or {}).get('environments') or {}).items()):
+        by = {}
+        for n in (envs_ or {}):
+            by.setdefault(n.lower(), []).append(n)
+        out += [(plat_, low, ns) for low, ns in sorted(by.items()) if len(ns) > 1]
+    return out
+
+
+def env_order_predicate(ctx, case):
+    """the determinism predicate itself, in-process, on the dimension of the family: the SAME document with the
+    environments of every platform listed as generated, reversed and rotated builds (real FlowIRConcrete) the same
+    environments on every platform"""
+    import experiment.model.frontends.flowir as F
+    seen = []
+    for v in range(3):
+        doc = copy.deepcopy(case['doc'])
+        for plat_, envs_ in list(doc['environments'].items()):
+            ks = list(envs_ or {})
+            ks = ks if v == 0 else (ks[::-1] if v == 1 else ks[1:] + ks[:1])
+            doc['environments'][plat_] = {k_: envs_[k_] for k_ in ks}
+        assert doc == case['doc']
+        try:
+            conc = F.FlowIRConcrete(doc, case.get('platform') or 'default', {})
+            envs_of = {p_: conc.get_environments(p_) for p_ in sorted(conc.platforms)}
+            seen.append(json.dumps(envs_of, sort_keys=True, default=repr))
+            # the rule of the loop of FlowIR.from_dict: ONE spelling that is not all-lowercase next to the lowercase
+            # one is the spelling served, whatever the order of the mapping
+            for plat_, low, ns in env_collisions(case):
+                upper = [n for n in ns if n != n.lower()]
+                if len(upper) == 1 and envs_of.get(plat_, {}).get(low) != case['doc']['environments'][plat_][upper[0]]:
+                    ctx.disagree({'case': short_case(case), 'platform': plat_, 'environment': low, 'spellings': ns,
+                                  'order': v}, envs_of.get(plat_, {}).get(low), case['doc']['environments'][plat_][upper[0]],
+                                 'C15: two spellings of an environment name in one platform - environment served vs the '
+                                 'rule of the loop of FlowIR.from_dict (the spelling that is not all-lowercase wins)')
+        except Exception as e:
+            seen.append('raise ' + type(e).__name__)
+    ctx.count('pkg:environment_names_equal_ignoring_case:orders_compared', len(seen))
+    for v in range(1, len(seen)):
+        if seen[v] != seen[0]:
+            ctx.fail({'case': short_case(case), 'order_a': 'as generated', 'order_b': ['reversed', 'rotated'][v - 1],
+                      'a': seen[0][:300], 'b': seen[v][:300]},
+                     'equal documents that list the environments of a platform in a different order build different '
+                     'environments', classes_of(case))
+            break
+
+
+def classes_of(case):
+    """open findings: F15c (c15_reuse) and F15d: FlowIR.from_dict renames the non-lowercase environment names one by
+    one in the order of the mapping - with TWO non-lowercase spellings of one name the one listed last wins"""
+    cls = list(R.classes_of(case))
+    for sub in [case] + list(case.get('packages') or []):
+        if any(len([n for n in ns if n != n.lower()]) >= 2 for _, _, ns in env_collisions(sub)):
+            cls.append(CLASS_ENV)
+    return sorted(set(cls))
+
+
+# ------------------------------------------------------------------ several DIFFERENT packages in ONE process
+FOLDER_POOL = ['generate', 'hooks', 'scripts', 'tools', 'lib', 'templates']
+
+
+def gen_folder_pkg(rng, folders):
+    """a FlowIR package directory that has TOP-LEVEL folders next to conf / data (they end up in its manifest); its
+    components reference files inside them and each other in the relative form"""
+    files = {'data/input.txt': 'hello %d' % rng.randint(0, 9)}
+    refs = ['data/input.txt:ref']
+    for f in folders:
+        fn = '%s/%s' % (f, rng.choice(['settings.conf', 'table.csv', 'run.sh']))
+        files[fn] = 'content of %s' % fn
+        refs.append('%s:%s' % (fn, rng.choice(['copy', 'ref', 'ref'])))
+    rng.shuffle(refs)
+    comps = [{'name': 'setup', 'stage': 0, 'references': refs,
+              'command': {'executable': 'echo', 'arguments': ' '.join(['%(x)s'] + [r for r in refs if r.endswith(':ref')])}},
+             {'name': 'use', 'stage': rng.choice([0, 0, 1]), 'references': ['stage0.setup:ref'],
+              'command': {'executable': 'ls', 'arguments': 'stage0.setup:ref'}}]
+    if comps[1]['stage'] == 0 and rng.random() < 0.7:
+        comps[1]['references'], comps[1]['command']['arguments'] = ['setup:ref'], 'setup:ref'
+    doc = {'components': comps, 'variables': {'default': {'global': {'x': 'pkg-x'}}}}
+    return {'kind': 'pkg', 'format': 'flowir', 'doc': doc, 'files': files, 'inputs': {}, 'vfiles': {}, 'given': [],
+            'platform': None, 'family': 'folders'}
+
+
+def gen_multi_case(rng):
+    """2-3 DIFFERENT packages that one process loads one after the other: a package whose components are referenced in
+    the relative form (replicating producers, aggregating consumer), a package directory with extra top-level folders
+    - mostly named like components of the first one -, now and then a third package; process v starts with package
+    v mod n, so every package is also loaded by a process that has loaded nothing else"""
+    b = gen_replica_pkg(rng, sensitive=rng.random() < 0.3)
+    names = [c_['name'] for c_ in b['doc']['components']]
+    folders = rng.sample(names, rng.randint(1, min(2, len(names)))) if rng.random() < 0.75 else []
+    folders += rng.sample(FOLDER_POOL, rng.randint(0 if folders else 1, 2))
+    pk = [gen_folder_pkg(rng, folders), b]
+    if rng.random() < 0.4:
+        pk.append(gen_flowir_pkg(rng) if rng.random() < 0.6 else gen_dsl_pkg(rng))
+    rng.shuffle(pk)
+    return {'kind': 'multi', 'packages': pk, 'vfiles': {}}
 
 
 def gen_dsl_pkg(rng):
@@ -428,6 +584,15 @@ def gen_replica_pkg(rng, sensitive=False):
 
 def variant_of(rng, case, v):
     """the case as process number v sees it: same content, other key orders / creation orders (v = 0: as generated)"""
+    if case['kind'] == 'multi':
+        n = len(case['packages'])
+        lo = list(range(n))
+        if v > 0:
+            first = v % n
+            rest = [i for i in lo if i != first]
+            rng.shuffle(rest)
+            lo = [first] + rest
+        return {'kind': 'multi', 'packages': [variant_of(rng, p_, v) for p_ in case['packages']], 'pkg_order': lo}
     c = copy.deepcopy(case)
     if v > 0:
         if 'flowir' in c:
@@ -480,6 +645,9 @@ def variant_of(rng, case, v):
 
 
 # ------------------------------------------------------------------ processes
+STATE_CHANGES = []
+
+
 def run_processes(ctx, cases, tag):
     """every case through len(SEEDS) processes; returns dumps[process][case] (strings)"""
     root = tempfile.mkdtemp(prefix='verif_c15_jobs_')
@@ -503,7 +671,11 @@ def run_processes(ctx, cases, tag):
                 raise RuntimeError('c15_impl timed out')
             if not os.path.exists(op):
                 raise RuntimeError('c15_impl produced no output: ' + so.decode('utf-8', 'replace')[-1500:])
-            outs.append(json.load(open(op))['dumps'])
+            res = json.load(open(op))
+            outs.append(res['dumps'])
+            for name, (before, after) in sorted((res.get('state_changed') or {}).items()):
+                STATE_CHANGES.append({'process': len(outs) - 1, 'run': tag, 'container': name,
+                                      'before': (before or '')[:300], 'after': (after or '')[:300]})
         return outs
     finally:
         shutil.rmtree(root, ignore_errors=True)
@@ -532,6 +704,8 @@ def first_diff(a, b, path=''):
 
 
 def short_case(case):
+    if case.get('kind') == 'multi':
+        return {'kind': 'multi', 'vfiles': {}, 'packages': [short_case(p_) for p_ in case['packages']]}
     c = {k: case[k] for k in ('kind', 'given', 'platform', 'nstages', 'family', 'calls', 'platforms') if k in case}
     c['vfiles'] = {n: to_transport(d) for n, d in case['vfiles'].items()}
     if 'flowir' in case or 'doc' in case:
@@ -570,7 +744,7 @@ def compare_processes(ctx, cases, outs):
                 what = 'canonical dump differs between processes at %s' % _generalise(where)
                 ctx.fail({'case': short_case(case), 'seed_a': SEEDS[0], 'seed_b': SEEDS[v], 'where': where,
                           'process_a': 0, 'process_b': v, 'a': _at(p0, where), 'b': _at(pv, where)}, what,
-                         R.classes_of(case))
+                         classes_of(case))
                 break
     return parsed0
 
@@ -735,6 +909,13 @@ def check_pkgs(ctx, cases, parsed, ref_terms):
             SVH.check_pkg(ctx, case, dump, short_case)
         if not ok:
             continue
+        # environment names equal ignoring case: the spelling that is NOT all-lowercase is the one served (the loop of
+        # FlowIR.from_dict renames it over the lowercase one, whatever the order of the mapping)
+        for plat_, low, ns in env_collisions(case):
+            upper = [n for n in ns if n != n.lower()]
+            ctx.count('pkg:environment_names_equal_ignoring_case:%s' % ('default' if plat_ == 'default' else 'other_platform'))
+        if env_collisions(case) and 'session' not in case:
+            env_order_predicate(ctx, case)
         ctx.count('pkg:components', ncomp)
         hashed = sum(1 for h in dump['memoization'].values() if isinstance(h, list) and h[0])
         ctx.count('pkg:memoization_hashes', hashed)
@@ -1999,6 +2180,22 @@ def _from_corpus(c):
     return unwrap(c)
 
 
+def check_process_state(ctx):
+    """a process is modelled WITHOUT state (Det.Model.session, Det.Reparam): the mutable module / class level
+    containers of the anchored modules must be after all the loads of a process what they were before"""
+    seen = set()
+    while STATE_CHANGES:
+        ch = STATE_CHANGES.pop(0)
+        if ch['container'] in seen:
+            continue
+        seen.add(ch['container'])
+        ctx.disagree({'container': ch['container'], 'process': ch['process'], 'run': ch['run']},
+                     ch['after'], ch['before'],
+                     'C15: module / class level container %s after the loads of a process vs before (the model of a '
+                     'process keeps no state)' % ch['container'])
+    ctx.count('process_state:runs_checked')
+
+
 def explore(ctx, vars_cases, pkg_cases):
     if vars_cases:
         outs = run_processes(ctx, vars_cases, 'vars')
@@ -2041,7 +2238,18 @@ def explore(ctx, vars_cases, pkg_cases):
         check_cfgs(ctx, [(c, d) for c, d in zip(pkg_cases, parsed_all) if c['kind'] == 'cfg'])
         check_insts(ctx, [(c, d) for c, d in zip(pkg_cases, parsed_all) if c['kind'] == 'inst'])
         parsed = [d for c, d in zip(pkg_cases, parsed_all) if c['kind'] == 'pkg']
-        pkg_cases = [c for c in pkg_cases if c['kind'] == 'pkg']
+        # several different packages in one process: every package is one pkg case for the predicates
+        for c, d in zip(pkg_cases, parsed_all):
+            if c['kind'] == 'multi':
+                ctx.count('multi:sessions_of_different_packages')
+                tl = [set(pd.get('top_level_folders') or []) - {'conf', 'data', 'input', 'bin'} for pd in d['packages']]
+                cn = [set(x.get('name') for x in (p_['doc'].get('components') or []) if isinstance(x, dict))
+                      if p_.get('format') == 'flowir' else set() for p_ in c['packages']]
+                if any(tl[i] & cn[j] for i in range(len(tl)) for j in range(len(cn)) if i != j):
+                    ctx.count('multi:top_level_folder_of_one_package_is_component_name_of_another')
+                parsed += d['packages']
+        pkg_cases = [c for c in pkg_cases if c['kind'] == 'pkg'] + \
+            [p_ for c in pkg_cases if c['kind'] == 'multi' for p_ in c['packages']]
         ref_terms = []
         vcases, vparsed = expand_loads(pkg_cases, parsed)
         check_pkgs(ctx, vcases, vparsed, ref_terms)
@@ -2049,6 +2257,7 @@ def explore(ctx, vars_cases, pkg_cases):
         for i in bad:
             ctx.disagree(ref_terms[i][1], ref_terms[i][1]['references'], 'sorted, duplicate free',
                          'C15 S4: references of a DSL component vs Det.Model.references_of')
+    check_process_state(ctx)
 
 
 def run(ctx):
@@ -2097,7 +2306,13 @@ def run(ctx):
                 'recomputed stage variables.  stagevars case = such a document (also unknown references, integers, a '
                 'stage without components, platform plat) through the real FlowIRConcrete.instance() vs '
                 'Det.StageVars.walk and vs the same document without the variables of the other stages; non-trivial = '
-                'a stage references a variable only other stages define at stage level and >= 2 stages are visited')
+                'a stage references a variable only other stages define at stage level and >= 2 stages are visited.  '
+                'multi case = 2-3 DIFFERENT packages loaded by ONE process one after the other (a replica-family package '
+                'whose components are referenced in the relative form, a package directory with 1-3 extra top-level '
+                'folders of which 3 in 4 times some are named like components of the former, sometimes a third FlowIR / '
+                'DSL package), process v starts with package v mod n; every package is a pkg case.  45 % of the FlowIR '
+                'pkg cases list an environment name twice (lowercase + one other spelling, different contents), 30 % '
+                'have a second platform whose environments mostly do the same')
     quick = ctx.tier == 'quick'
     vars_cases = [c for c in corpus_cases() if c['kind'] == 'vars']
     pkg_cases = [c for c in corpus_cases() if c['kind'] == 'pkg']
@@ -2124,8 +2339,11 @@ def run(ctx):
         pkg_cases.append(SVH.gen_stagevars_pkg(rng))
     # ONE configuration object re-parametrized (every package kind), DOSINI instances with both flavours of stage files
     for c in corpus_cases():
-        if c['kind'] in ('cfg', 'inst'):
+        if c['kind'] in ('cfg', 'inst', 'multi'):
             pkg_cases.append(c)
+    # several DIFFERENT packages loaded by ONE process (top-level folders of one = component names of another)
+    for _ in range(5 if quick else 40):
+        pkg_cases.append(gen_multi_case(rng))
     for fmt, n in (('memory', 8 if quick else 60), ('dosini', 6 if quick else 40), ('flowir', 4 if quick else 30),
                    ('dsl', 4 if quick else 24)):
         for _ in range(n):
@@ -2168,7 +2386,7 @@ def replay(ctx, path):
         for f in ctx.disagreements:
             print('DISAGREEMENT: %s' % (json.dumps(f, default=str)[:600],))
         return 1 if (ctx.failures or ctx.disagreements) else 0
-    if not isinstance(c, dict) or c.get('kind') not in ('vars', 'pkg', 'cfg', 'inst'):
+    if not isinstance(c, dict) or c.get('kind') not in ('vars', 'pkg', 'cfg', 'inst', 'multi'):
         if isinstance(c, dict) and 'old' in c and 'new' in c:
             import experiment.model.frontends.flowir as F
             print('override_object(%r, %r) = %r' % (c['old'], c['new'], F.FlowIR.override_object(copy.deepcopy(c['old']), copy.deepcopy(c['new']))))
